@@ -211,7 +211,6 @@ func runUnbound(sc *Scenario) (res Result) {
 	synctest.Wait()
 	for _, m := range sc.Script {
 		wasCancelled := u.cancelled
-		racing := m.K == "batch"
 		if msg := u.do(m); msg != "" {
 			return fail(msg)
 		}
@@ -227,7 +226,7 @@ func runUnbound(sc *Scenario) (res Result) {
 			u.refills++
 		}
 		// a send never waits for the receiver: at quiescence every started send has returned
-		if !wasCancelled && !u.cancelled && !racing && !u.allDone() {
+		if !wasCancelled && !u.cancelled && !u.allDone() {
 			return fail(fmt.Sprintf("a send is still blocked at quiescence: %d sends started, %d completed, %d received - the sender waits for the receiver", u.started, completed, len(u.got)))
 		}
 	}
